@@ -85,6 +85,28 @@ def _writers(fn, du, w, handles, own_table):
   return out
 
 
+def _hidden_writer(w, fn, kind, table, handles, depth=2, seen=None):
+  """A same-class helper fn calls (not a user action, not one of the enumerated writers) may do a
+  metadata write of this kind on this table, or on a table that depends on its arguments."""
+  seen = seen if seen is not None else {fn.qualname}
+  ua = w.useraction_methods()
+  for (n, c, nm) in fn.calls():
+    fi = H.self_method(w, fn, c)
+    if fi is None or fi.qualname in seen or fi.name in ua or fi.name.startswith("doBulk"):
+      continue
+    seen.add(fi.qualname)
+    h = w.fn_of(fi)
+    try:
+      wr = _writers(h, DefUse(h), w, handles, None)
+    except AnalysisError:
+      return True
+    if any(kd == kind and tb in (table, None) for (nid, kd, tb, c2) in wr):
+      return True
+    if depth > 1 and _hidden_writer(w, h, kind, table, handles, depth - 1, seen):
+      return True
+  return False
+
+
 def r1_pairing(run, w):
   R1 = run.rule("C08-R1", "a function that hands a schema doc action to the gateway writes the "
                 "matching metadata table with the matching kind of write on every normal path",
@@ -148,7 +170,7 @@ def r1_pairing(run, w):
             raise AnalysisError("%s is a private part of %s that could not be read in place; the "
                                 "metadata %s of %s may be its caller's" % (fi.qualname, part_of,
                                                                           kind, table))
-          if not W and H.hidden_in_callees(w, fn, is_writer):
+          if not W and _hidden_writer(w, fn, kind, table, handles):
             raise AnalysisError("%s: no metadata %s of %s in the function itself, but a helper "
                                 "it calls writes metadata; cannot follow" % (fi.qualname, kind,
                                                                             table))
@@ -430,7 +452,7 @@ def r2_field_sets(run, w):
 def _r2_update_translation(run, R2, w, mprops):
   """_updateColumnRecords: colId -> RenameColumn, type/isFormula/formula -> ModifyColumn via
   select_keys(values, _modify_col_schema_props), reverseCol -> reverseColId on both branches."""
-  fn = w.fn("useractions.UserActions._updateColumnRecords")
+  fn = H.inlined_fn(w, "useractions.UserActions._updateColumnRecords")
   cfg = fn.cfg
   names = w.action_types()
   mods = [(n, H.norm(w, fn, c)) for (n, c, nm) in fn.calls() if nm == "self.doModifyColumn"]
@@ -439,6 +461,12 @@ def _r2_update_translation(run, R2, w, mprops):
   mn, mcall = mods[0]
   info = mcall.args[2].id
   d = H.single_def(fn, info)
+  if isinstance(d, ast.Call) and dotted(d.func) != "select_keys" and \
+      H.local_callee(w, fn, d) is not None:
+    raise AnalysisError("_updateColumnRecords: %s is produced by helper %s; cannot follow"
+                        % (info, short(d, 50)))
+  if d is None:
+    raise AnalysisError("_updateColumnRecords: %s has no single binding" % info)
   ok = isinstance(d, ast.Call) and dotted(d.func) == "select_keys" and len(d.args) == 2 and \
       text(d.args[1]) == "_modify_col_schema_props" and isinstance(d.args[0], ast.Name)
   run.ob(R2, fn.qualname, "%s = %s" % (info, short(d) if d is not None else "?"),
@@ -548,7 +576,7 @@ def r3_rebuild_and_assert(run, w):
     fn = w.fn_of(cls.methods[an])
     cfg = fn.cfg
     sw = E.schema_write_nodes(fn)
-    reb = fn.nodes_calling(E.is_engine_call("rebuild_usercode"))
+    reb = H.always_nodes(w, fn, E.is_engine_call("rebuild_usercode"))
     if not sw:
       raise AnalysisError("%s: no schema write recognised (mechanism moved?)" % fn.qualname)
     bad = [s for s in sorted(sw) if not cfg.postdominated_by(s, reb)]
@@ -559,7 +587,7 @@ def r3_rebuild_and_assert(run, w):
            node=cfg.nodes[bad[0]].stmt if bad else None)
   # C04-R3: clone / restore / _schema_updated = True before dispatch (recorded under C08-R3)
   from .c04 import r3_schema_restore
-  r3_schema_restore(H.RuleAlias(run, {"C04-R3": R3}), H.NormWorld(w))
+  r3_schema_restore(H.RuleAlias(run, {"C04-R3": R3}, w), H.NormWorld(w))
   run.rule(R3, run.rules[R3]["desc"], floor=18)
   # apply_user_actions (private helpers of Engine it calls are read in place)
   fn = w.fn("engine.Engine.apply_user_actions")
@@ -600,10 +628,23 @@ def r3_rebuild_and_assert(run, w):
             n.id in nodes}
   lp = loop_of(ncfg)
   body = region(NI, lp.stmt.body)
-  applies = {n.id for (n, c, nm) in NI.calls() if nm == "self._apply_one_user_action"} & body
+  def dispatches(f, c, nm):
+    """the user action is applied: self._apply_one_user_action(...), or the dispatch it consists
+    of, getattr(self.user_actions, <name>)(*user_action), written in place"""
+    if nm == "self._apply_one_user_action":
+      return True
+    g = H.deref(f, c.func)
+    return isinstance(g, ast.Call) and dotted(g.func) == "getattr" and g.args and \
+        endswith(f.name(g.args[0]) or "", "user_actions", "_useractions")
+  applies = {n.id for (n, c, nm) in NI.calls() if dispatches(NI.owner[n.id], c, nm)} & body
   if not applies:
     raise AnalysisError("apply_user_actions: _apply_one_user_action not called in the loop")
   checks = asserts_in(NI, body)
+  is_assert = lambda c, nm, f: isinstance(c.func, ast.Attribute) and \
+      c.func.attr == "assert_schema_consistent"
+  if not checks and H.hidden_in_callees(w, fn, is_assert, depth=4):
+    raise AnalysisError("apply_user_actions: assert_schema_consistent is only called inside a "
+                        "function that could not be read in place")
   # on the normal path, each applied user action that set the flag is followed by the assertion
   # before the next iteration / the end of the loop (however the test of the flag is spelled)
   bad = [a for a in applies
@@ -631,6 +672,12 @@ def r3_rebuild_and_assert(run, w):
       hbody |= region(XI, n.stmt.body)
   undo &= hbody
   checks_h = asserts_in(XI, hbody)
+  is_undo = lambda c, nm, f: isinstance(c.func, ast.Attribute) and \
+      c.func.attr == "_undo_to_checkpoint"
+  if (not undo and H.hidden_in_callees(w, fn, is_undo, depth=4)) or \
+      (undo and not checks_h and H.hidden_in_callees(w, fn, is_assert, depth=4)):
+    raise AnalysisError("apply_user_actions: the rollback / the check after it is inside a "
+                        "function that could not be read in place")
   xexits = {xcfg.exit.id, xcfg.raise_exit.id}
   ok = bool(undo) and bool(checks_h) and all(
     not (H.reach_assuming(xcfg, set(xcfg.normal_succ(u)), touched, removed=checks_h) & xexits)
@@ -684,6 +731,13 @@ def r3_rebuild_and_assert(run, w):
         is_rows = lambda x: isinstance(x, ast.Attribute) and x.attr == "row_ids"
         if du.flows_from(is_parent, l) and du.flows_from(is_rows, r):
           stray_ok = stray_ok or raising_if(n, t, strict)
+  if not (cmp_ok and stray_ok):
+    # not finding a comparison is no evidence that it is not made: it may sit in a helper
+    hidden = [c for (n, c, nm) in ac.calls() if H.local_callee(w, ac, c) is not None and
+              nm not in ("self.fetch_table",)]
+    if hidden:
+      raise AnalysisError("assert_schema_consistent: comparison not found in the function "
+                          "itself, and %s could not be read in place" % short(hidden[0], 60))
   run.ob(R3, ac.qualname, "build_schema(fetch(_grist_Tables), fetch(_grist_Tables_column)) != "
          "self.schema -> raise", "the assertion compares the engine's schema with the one the two "
          "metadata tables describe and raises on a difference", ok and cmp_ok, fi=ac.fi)
